@@ -40,8 +40,8 @@ pub fn make_move_step<S: Src, const SIDE: u8, const KG: u8, const DIRECT: bool>(
             }
         }
     }
-    vcover!("accepted", want);
-    vcover!("refused: semilegal but leaves the king attacked", !want && semilegal_ref(&p, m));
+    vcover!("accepted (own men)", KG == KG_FOREIGN || want);
+    vcover!("refused: semilegal but leaves the king attacked (own men)", KG == KG_FOREIGN || (!want && semilegal_ref(&p, m)));
     vcover!("refused: not semilegal", !semilegal_ref(&p, m));
 }
 
@@ -75,6 +75,7 @@ pub fn make_raw_step<S: Src, const SIDE: u8, const KG: u8>(s: &mut S) {
             vassert!("a refused move leaves every per-piece set as it was", bc.piece(Cell::from_index(pc as usize)) == b.piece(Cell::from_index(pc as usize)));
         }
     }
-    vcover!("accepted", want);
-    vcover!("refused after being applied and rolled back", !want && semilegal_ref(&p, m));
+    vcover!("accepted (own men)", KG == KG_FOREIGN || want);
+    vcover!("refused after being applied and rolled back (own men)", KG == KG_FOREIGN || (!want && semilegal_ref(&p, m)));
+    vcover!("refused without being applied", !semilegal_ref(&p, m));
 }
